@@ -467,16 +467,20 @@ def conformance(ctx):
     per_kind = {}
     import concurrent.futures as cf
     mpctx = multiprocessing.get_context('spawn')
-    with cf.ProcessPoolExecutor(min(12, os.cpu_count() or 4), mp_context=mpctx, max_tasks_per_child=50, initializer=_quiet) as pool:
-        for res in pool.map(replay_one, jobs, chunksize=2):
-            pk = per_kind.setdefault(res[4], {'ok': 0, 'na': 0, 'mismatch': 0})
-            pk[res[0]] += 1
-            if res[0] == 'ok':
-                n_ok += 1
-            elif res[0] == 'na':
-                n_na += 1
-            else:
-                bad.append({'why': res[1], 'box': res[2], 'choices': res[3], 'kind': res[4]})
+    # fresh worker processes every BATCH jobs (max_tasks_per_child of ProcessPoolExecutor can dead-lock in CPython 3.12.1)
+    nproc = min(12, os.cpu_count() or 4)
+    BATCH = nproc * 40
+    for b0 in range(0, len(jobs), BATCH):
+        with cf.ProcessPoolExecutor(nproc, mp_context=mpctx, initializer=_quiet) as pool:
+            for res in pool.map(replay_one, jobs[b0:b0 + BATCH], chunksize=2):
+                pk = per_kind.setdefault(res[4], {'ok': 0, 'na': 0, 'mismatch': 0})
+                pk[res[0]] += 1
+                if res[0] == 'ok':
+                    n_ok += 1
+                elif res[0] == 'na':
+                    n_na += 1
+                else:
+                    bad.append({'why': res[1], 'box': res[2], 'choices': res[3], 'kind': res[4]})
     ctx.extra['conformance_per_kind'] = per_kind
     return n_ok, n_na, bad
 
